@@ -160,6 +160,9 @@ def scenarios(tier):
     lo = lambda d: [10, 200, 0, d]
     sc.append({"name": "socks-subnet", "args": ["socks", "--json", "-p", "1080-1081", "-w", "3", "10.200.0.4/30"], "listen": [1080, 1081],
                "expect": {"kind": "app", "scan": "socks", "target": target([10, 200, 0, 4], 30, [rng(1080, 1081)])}})
+    # 8'. application scan with an exclusion file: no connection to an excluded address
+    sc.append({"name": "socks-exclude", "args": ["socks", "--json", "-p", "1080", "--exclude", "{dir}/sexcl", "10.200.0.16/29"], "listen": [1080], "files": {"sexcl": "10.200.0.20/30\n10.200.0.17\n"},
+               "expect": {"kind": "app", "scan": "socks", "target": target([10, 200, 0, 16], 29, [rng(1080, 1080)], exclude=[{"ip": [10, 200, 0, 20], "len": 30}, {"ip": [10, 200, 0, 17], "len": 32}])}})
     # 9. application scan: addresses from standard input x two ports
     sc.append({"name": "socks-stdin-two-ports", "args": ["socks", "--json", "-p", "1080,1081", "-f", "-"], "listen": [1080, 1081],
                "stdin": '{"ip":"10.200.0.9"}\n{"ip":"10.200.0.10"}\n',
@@ -263,6 +266,9 @@ def scenarios(tier):
     # 11. Ctrl-C in the middle of a rate-limited scan, and during the exit delay
     sc.append({"name": "sigint-mid-scan", "args": ["arp", "--json", "--rate", "50/s", "10.9.3.0/26"], "sigintAfter": 5, "maxMs": 10000,
                "expect": {"kind": "sigint", "scan": "arp", "target": target(net30, 26)}})
+    odd = list(range(3001, 15003, 2))          # 6001 single-port ranges: 31 passes
+    sc.append({"name": "sigint-chunked", "args": ["tcp", "syn", "--json", "--rate", "200/s", "-p", ",".join(map(str, odd))] + COMMON + ["10.9.3.1"], "files": {"empty": ""}, "sigintAfter": 5, "maxMs": 12000,
+               "expect": {"kind": "sigint", "scan": "tcpsyn", "vpn": False, "target": target(a(1), 32, [rng(p, p) for p in odd])}})
     sc.append({"name": "sigint-in-exit-delay", "args": ["arp", "--json", "--exit-delay", "8s", "10.9.3.0/30"], "sigintAfter": 4, "maxMs": 10000,
                "expect": {"kind": "sigint", "scan": "arp", "target": target(net30, 30)}})
     if tier == "thorough":
